@@ -829,3 +829,73 @@ def rule_W4(ctx) -> None:
                     "decode_varint(b'\\x81\\x80\\x00', 0)")
     else:
         ctx.proved("W4", "load_varint:rejections", mod.loc(lv), f"raises only {sorted(kinds)}")
+
+
+# ---------------------------------------------------------------------------
+# Z1 - zig-zag arithmetic against its linear specification
+
+
+def rule_Z1(ctx, rule: str = "Z1") -> None:
+    """encoder: enc(v) = 2v for v >= 0 and -2v-1 for v < 0 over the type's range;
+    decoder: dec(2k) = k and dec(2k+1) = -k-1.  Decided with linear normal forms per case and intervals."""
+    from ..linarith import lin, xor_mask_lemma
+    from ..sym import subst
+
+    m = model(ctx)
+    mod = m.mod
+    loc = mod.loc(mod.func("_preprocess_single"))
+    for t, bits in (("sint32", 32), ("sint64", 64)):
+        encs = [d for _, k, d in m.enc[t] if k in ("varint-transformed", "varint-plain", "varint-other")]
+        if len(encs) != 1:
+            ctx.inconclusive(rule, f"zigzag-encode[{t}]", f"{len(encs)} encoder terms", loc)
+            continue
+        term = encs[0]
+        v = m.value
+        verdicts = []
+        for cname, rng, want in (("v >= 0", (0, 2 ** (bits - 1) - 1), (2, 0)), ("v < 0", (-(2 ** (bits - 1)), -1), (-2, -1))):
+            got = lin(term, v, rng)
+            if got is None and term[0] == "ife":
+                pass
+            if got is None:
+                x = xor_mask_lemma(term, v, rng)
+                if x is not None:
+                    la, siv = x
+                    need = 0 if want == (2, 0) else -1
+                    base_ok = la == (2, 0)
+                    mask = next((s_ for s_ in (term[2], term[3]) if lin(s_, v, rng) is None), None)
+                    exact = mask is not None and mask[0] == "op" and mask[1] == ">>" and mask[2] == v and mask[3][0] == "c"
+                    if base_ok and exact and siv != (need, need):
+                        verdicts.append(("bad", f"for {cname} over the {t} range the sign term {show(mask)} takes values in [{siv[0]:.0f}, {siv[1]:.0f}] instead of the constant {need}: the shift is too small for this type"))
+                        continue
+                verdicts.append(("inc", f"not linear for {cname}: {show(term)}"))
+            elif got != want:
+                verdicts.append(("bad", f"for {cname}: encodes {got[0]}*v{got[1]:+d}, zig-zag is {want[0]}*v{want[1]:+d}"))
+            else:
+                verdicts.append(("ok", ""))
+        if any(k == "bad" for k, _ in verdicts):
+            d = next(d for k, d in verdicts if k == "bad")
+            ctx.refuted(rule, f"zigzag-encode[{t}]", d.split(":")[0][:50], loc, f"{t} is encoded as {show(term)}; {d}",
+                        f"round-trip a {t} value {'beyond 32 bits' if bits == 64 else 'near the range ends'}, e.g. 2**31 or -(2**31)-1")
+        elif any(k == "inc" for k, _ in verdicts):
+            ctx.inconclusive(rule, f"zigzag-encode[{t}]", next(d for k, d in verdicts if k == "inc"), loc)
+        else:
+            ctx.proved(rule, f"zigzag-encode[{t}]", loc, show(term))
+    locd = mod.loc(mod.func("Message._postprocess_single"))
+    for t, bits in (("sint32", 32), ("sint64", 64)):
+        decs = [d for d in m.dec[(t, 0)] if d[1] != "raise"]
+        if len(decs) != 1 or decs[0][3] is None:
+            ctx.inconclusive(rule, f"zigzag-decode[{t}]", f"{len(decs)} decoder terms", locd)
+            continue
+        term = decs[0][3]
+        kk = N("$k")
+        res = []
+        for p, want in ((0, (1, 0)), (1, (-1, -1))):
+            sub = subst(term, lambda s_: OP("+", OP("*", C(2), kk), C(p)) if s_ == m.dvalue else None)
+            res.append((lin(sub, kk, (0, 2 ** (bits - 1) - 1)), want))
+        if all(g == w for g, w in res):
+            ctx.proved(rule, f"zigzag-decode[{t}]", locd, show(term))
+        elif any(g is None for g, _ in res):
+            ctx.inconclusive(rule, f"zigzag-decode[{t}]", f"decoder {show(term)} is not linear on even/odd inputs", locd)
+        else:
+            ctx.refuted(rule, f"zigzag-decode[{t}]", ";".join(f"{g}" for g, _ in res), locd,
+                        f"{t} is decoded as {show(term)}: on inputs 2k / 2k+1 it yields {[g for g, _ in res]}, zig-zag decoding is k / -k-1", f"parse a {t} field")
